@@ -206,3 +206,49 @@ def mod_sets(mods):
     for c in EXTERNAL_NOMOD:
         res.setdefault(c, set())
     return res
+
+
+def fresh_returning(mods, base=('malloc', 'calloc', 'realloc', 'reallocarray', 'strdup', 'strndup', 'fopen', 'fmemopen')):
+    """functions every non-null return value of which is the result of an allocator or of another
+    such function (computed to a fixpoint from the IR; pointer arithmetic on the result does not count)"""
+    funcs = {}
+    for m in mods:
+        funcs.update(m.funcs)
+    fresh = set(base)
+    changed = True
+
+    def origin(fn, v, seen):
+        if v.kind == 'null':
+            return {'null'}
+        if v.kind != 'reg' or v.name in seen:
+            return {'?'} if v.kind != 'reg' else set()
+        seen = seen | {v.name}
+        d = fn.defs.get(v.name)
+        if d is None:
+            return {'param'}
+        if d.op == 'call':
+            return {d.callee_name() or 'indirect'}
+        if d.op == 'bitcast':
+            return origin(fn, d.ops[0], seen)
+        if d.op == 'phi':
+            out = set()
+            for x in d.ops:
+                out |= origin(fn, x, seen)
+            return out
+        if d.op == 'select':
+            return origin(fn, d.ops[1], seen) | origin(fn, d.ops[2], seen)
+        return {d.op}
+    while changed:
+        changed = False
+        for n, fn in funcs.items():
+            if n in fresh or not fn.retty.endswith('*'):
+                continue
+            outs = set()
+            for ins in fn.instrs():
+                if ins.op == 'ret' and ins.ops:
+                    outs |= origin(fn, ins.ops[0], set())
+            outs.discard('null')
+            if outs and all(o in fresh or o == n for o in outs) and any(o in fresh for o in outs):
+                fresh.add(n)
+                changed = True
+    return fresh - set(base)
